@@ -6996,9 +6996,9 @@ bool
 R_<TG_, TA_>::replayTransition(const StateID destination) noexcept {
 	FFSM2_ASSERT(_core.registry.isActive());
 
-	_core.previousTransition.clear();
-
 	if (FFSM2_CHECKED(destination != INVALID_SHORT)) {
+		_core.previousTransition.clear();
+
 		Transition currentTransition;
 		PlanControl control{_core, currentTransition};
 
